@@ -30,6 +30,8 @@ type SolverStats struct {
 	NUnsat   int
 	NUnknown int
 	Time     time.Duration
+	ModelTime time.Duration
+	SendTime time.Duration
 }
 
 type Solver struct {
@@ -44,6 +46,7 @@ type Solver struct {
 	timeout int // ms per check
 	log     io.Writer
 	dead    bool
+	slowHook func(time.Duration, SatResult)
 	lastErr string
 }
 
@@ -95,6 +98,8 @@ func (s *Solver) send(line string) {
 	if s.log != nil {
 		fmt.Fprintln(s.log, line)
 	}
+	t0 := time.Now()
+	defer func() { s.Stats.SendTime += time.Since(t0) }()
 	if _, err := io.WriteString(s.in, line+"\n"); err != nil {
 		s.dead = true
 		s.lastErr = err.Error()
@@ -181,6 +186,18 @@ func (s *Solver) Assert(t *Term) {
 	s.send("(assert " + smtName(t) + ")")
 }
 
+// AssertDefined asserts a term whose definition is already in scope.
+func (s *Solver) AssertDefined(t *Term) {
+	if t.IsConst() {
+		s.send("(assert " + constSMT(t) + ")")
+		return
+	}
+	if _, ok := s.defined[t.id]; !ok {
+		s.define(t)
+	}
+	s.send("(assert " + smtName(t) + ")")
+}
+
 func (s *Solver) readLine() string {
 	line, err := s.out.ReadString('\n')
 	if err != nil {
@@ -234,6 +251,9 @@ func (s *Solver) Check() SatResult {
 	}
 	s.Stats.Queries++
 	s.Stats.Time += time.Since(t0)
+	if d := time.Since(t0); d > 2*time.Second && s.slowHook != nil {
+		s.slowHook(d, res)
+	}
 	switch res {
 	case Sat:
 		s.Stats.NSat++
@@ -260,6 +280,8 @@ func (s *Solver) CheckWith(extra *Term, vars []*Term) (SatResult, Model) {
 
 // GetModel returns values for the given variables (must be declared in scope).
 func (s *Solver) GetModel(vars []*Term) Model {
+	t0 := time.Now()
+	defer func() { s.Stats.ModelTime += time.Since(t0) }()
 	m := Model{}
 	var names []string
 	byName := map[string]*Term{}
